@@ -98,6 +98,7 @@ structure Inv (s : Store) : Prop where
   dvFiles : ∀ e ∈ s.dvs, ∃ raw, lookup e.key s.dvFiles = some raw ∧ sortDedup raw = e.dead
   dvLive : ∀ e ∈ s.dvs, (e.tid, e.rs) ∈ s.rowsets          -- no DV outlives its row-set
   dvIds : ∀ e ∈ s.dvs, e.dv < s.nextDv
+  dvFileIds : ∀ x ∈ s.dvFiles, x.1.2.2 < s.nextDv       -- no DV file carries an id not yet handed out
   catIds : ∀ e ∈ s.cat.entries, e.id < s.cat.nextId ∧ e.kind = .table
   idsNodup : (s.cat.entries.map (·.id)).Nodup
   namesNodup : (s.cat.entries.map (·.name)).Nodup
@@ -118,7 +119,7 @@ theorem Inv.dvKeysNodup {s : Store} (h : Inv s) : (s.dvs.map DvE.key).Nodup := b
   rwa [h.sync.dv] at this
 
 theorem inv_init : Inv Store.init := by
-  refine ⟨wf_init, sync_init, ?_, ?_, ?_, ?_, ?_, ?_, ?_, ?_, ?_, ?_, ?_⟩ <;> simp [Store.init]
+  refine ⟨wf_init, sync_init, ?_, ?_, ?_, ?_, ?_, ?_, ?_, ?_, ?_, ?_, ?_, ?_⟩ <;> simp [Store.init]
 
 theorem lookup_isSome_of_mem {α β} [BEq α] [LawfulBEq α] (k : α) (v : β) : ∀ l : List (α × β), (k, v) ∈ l → (lookup k l).isSome
   | [], h => by simp at h
@@ -152,20 +153,21 @@ theorem flushDirs_keys_nodup (d : TableDef) (tid : Nat) : ∀ (parts : List (Lis
     rw [hxe] at this; simp at this; omega
 
 theorem insert_fields (s : Store) (n : String) (parts : List (List Row)) (tid : Nat) (d : TableDef)
-    (h1 : s.tableId? n = some tid) (h2 : lookup tid s.tables = some d) :
+    (h1 : s.tableId? n = some tid) (h2 : lookup tid s.tables = some d) (hok : rowsOk d parts.flatten = true) :
     let s' := (s.insert n parts).1
     let nd := flushDirs d tid parts s.nextRs
     s'.cat = s.cat ∧ s'.tables = s.tables ∧ s'.dvs = s.dvs ∧ s'.dvFiles = s.dvFiles ∧ s'.nextDv = s.nextDv ∧
     s'.dirs = s.dirs ++ nd ∧ s'.rowsets = s.rowsets ++ nd.map (·.1) ∧
     s'.manifest = s.manifest ++ txn (nd.map fun x => Rec.addRowSet tid x.1.2) := by
-  simp only [Store.insert, h1, h2, Store.commit]
+  simp only [Store.insert, h1, h2, hok, Store.commit]
   simp
 
 theorem insert_inv (s : Store) (inv : Inv s) (n : String) (parts : List (List Row)) (tid : Nat) (d : TableDef)
-    (h1 : s.tableId? n = some tid) (h2 : lookup tid s.tables = some d) : Inv (s.insert n parts).1 := by
-  obtain ⟨f1, f2, f3, f4, f5, f6, f7, f8⟩ := insert_fields s n parts tid d h1 h2
+    (h1 : s.tableId? n = some tid) (h2 : lookup tid s.tables = some d) (hok : rowsOk d parts.flatten = true) :
+    Inv (s.insert n parts).1 := by
+  obtain ⟨f1, f2, f3, f4, f5, f6, f7, f8⟩ := insert_fields s n parts tid d h1 h2 hok
   have hkeys := flushDirs_keys d tid parts s.nextRs
-  have hwf := (insert_scan s inv.wf n parts tid d h1 h2).1
+  have hwf := (insert_scan s inv.wf n parts tid d h1 h2 hok).1
   -- the log
   have hrecs : ((flushDirs d tid parts s.nextRs).map fun x => Rec.addRowSet tid x.1.2)
       = (((flushDirs d tid parts s.nextRs).map (·.1)).map fun k => Rec.addRowSet k.1 k.2) := by
@@ -190,7 +192,7 @@ theorem insert_inv (s : Store) (inv : Inv s) (n : String) (parts : List (List Ro
     omega
   refine ⟨hwf, ⟨by rw [f8]; exact c1, by rw [hA.1.2.2.2]; exact inv.sync.ok, by rw [hA.1.1, f1]; exact inv.sync.cat,
       by rw [hA.1.2.1, f2]; exact inv.sync.tables, ?_, by rw [hA.2.1, f3]; exact inv.sync.dv⟩,
-    ?_, ?_, ?_, ?_, ?_, ?_, ?_, ?_, ?_, ?_, ?_⟩
+    ?_, ?_, ?_, ?_, ?_, ?_, ?_, ?_, ?_, ?_, ?_, ?_⟩
   · rw [hA.2.2.2, inv.sync.rs, f7]
     exact foldl_setInsert_nodup _ _ hnd
   · intro k hk
@@ -205,6 +207,7 @@ theorem insert_inv (s : Store) (inv : Inv s) (n : String) (parts : List (List Ro
   · intro e he; rw [f3] at he; rw [f4]; exact inv.dvFiles e he
   · intro e he; rw [f3] at he; rw [f7]; exact List.mem_append_left _ (inv.dvLive e he)
   · intro e he; rw [f3] at he; rw [f5]; exact inv.dvIds e he
+  · rw [f4, f5]; exact inv.dvFileIds
   · rw [f1]; exact inv.catIds
   · rw [f1]; exact inv.idsNodup
   · rw [f1]; exact inv.namesNodup
@@ -286,11 +289,19 @@ theorem delete_fields2 (s : Store) (n : String) (p : Row → Bool) (tid : Nat) (
   simp only [Store.delete, h1, Store.commit]
   exact ⟨rfl, rfl, rfl⟩
 
-/-- `hfree`: the DV files about to be written do not exist yet (`create_new`): DV files are never
-unlinked, so a re-issued (table, row-set, DV) id triple would collide -/
 theorem delete_inv (s : Store) (inv : Inv s) (n : String) (p : Row → Bool) (tid : Nat)
-    (h1 : s.tableId? n = some tid)
-    (hfree : ∀ e ∈ mkDvs tid (delHits s tid p) s.nextDv, lookup e.key s.dvFiles = none) : Inv (s.delete n p).1 := by
+    (h1 : s.tableId? n = some tid) : Inv (s.delete n p).1 := by
+  -- the DV files about to be written (`create_new`) do not exist yet: every file on disk has an id
+  -- below the generator (bootstrap vacuums `dv/`), the new ones are at or above it
+  have hfree : ∀ e ∈ mkDvs tid (delHits s tid p) s.nextDv, lookup e.key s.dvFiles = none := by
+    intro e he
+    apply lookup_none_of_forall
+    intro x hx heq
+    have h1' := inv.dvFileIds x hx
+    have h2' := ((mkDvs_spec tid (delHits s tid p) s.nextDv).1 e he).1
+    rw [heq] at h1'
+    simp [DvE.key] at h1'
+    omega
   obtain ⟨f1, f2, f3, f4, f5, f6, f7, _⟩ := delete_fields s n p tid h1
   obtain ⟨g1, g2, g3⟩ := delete_fields2 s n p tid h1
   have hwf := (delete_scan s inv.wf n p tid h1).1
@@ -327,7 +338,7 @@ theorem delete_inv (s : Store) (inv : Inv s) (n : String) (p : Row → Bool) (ti
     rw [List.map_map]; exact hsp2
   refine ⟨hwf, ⟨by rw [g3]; exact c1, by rw [hA.1.2.2.2]; exact inv.sync.ok, by rw [hA.1.1, f1]; exact inv.sync.cat,
       by rw [hA.1.2.1, f2]; exact inv.sync.tables, by rw [hA.2.1, f3]; exact inv.sync.rs, ?_⟩,
-    ?_, ?_, ?_, ?_, ?_, ?_, ?_, ?_, ?_, ?_, ?_⟩
+    ?_, ?_, ?_, ?_, ?_, ?_, ?_, ?_, ?_, ?_, ?_, ?_⟩
   · rw [hA.2.2.2, inv.sync.dv, f7, List.map_append]
     exact foldl_setInsert_nodup _ _ hnodup
   · intro k hk; rw [f3] at hk; rw [f4]; exact inv.dirs k hk
@@ -353,6 +364,12 @@ theorem delete_inv (s : Store) (inv : Inv s) (n : String) (p : Row → Bool) (ti
     rcases List.mem_append.mp he with he | he
     · have := inv.dvIds e he; omega
     · exact (hsp1 e he).2.1
+  · intro x hx
+    rw [g2] at hx; rw [g1]
+    rcases List.mem_append.mp hx with hx | hx
+    · have := inv.dvFileIds x hx; omega
+    · obtain ⟨e, he, rfl⟩ := List.mem_map.mp hx
+      exact (hsp1 e he).2.1
   · rw [f1]; exact inv.catIds
   · rw [f1]; exact inv.idsNodup
   · rw [f1]; exact inv.namesNodup
@@ -370,7 +387,7 @@ theorem delete_inv (s : Store) (inv : Inv s) (n : String) (p : Row → Bool) (ti
 theorem vacuum_inv (s : Store) (inv : Inv s) : Inv s.vacuum := by
   have hwf := (vacuum_scan s inv.wf).1
   refine ⟨hwf, ⟨inv.sync.closed, inv.sync.ok, inv.sync.cat, inv.sync.tables, inv.sync.rs, inv.sync.dv⟩,
-    ?_, inv.dvFiles, inv.dvLive, inv.dvIds, inv.catIds, inv.idsNodup, inv.namesNodup, inv.catTab, inv.tabIds,
+    ?_, inv.dvFiles, inv.dvLive, inv.dvIds, inv.dvFileIds, inv.catIds, inv.idsNodup, inv.namesNodup, inv.catTab, inv.tabIds,
     inv.rsTables, inv.dvTables⟩
   intro k hk
   have hnp : s.pending.contains k = false := by
@@ -469,7 +486,7 @@ theorem compactTable_inv (s : Store) (inv : Inv s) (tid : Nat) (d : TableDef) (s
       refine ⟨hwf, Sync.mk' c2 c1 (by rw [hD.1.2.2.2]; exact inv.sync.ok) (by rw [hD.1.1]; exact inv.sync.cat)
           (by rw [hD.1.2.1]; exact inv.sync.tables) ?_ ?_,
         fun k hk => inv.dirs k (hkeepSub k hk), fun e he => inv.dvFiles e (hdvSub e he), hdvLive,
-        fun e he => inv.dvIds e (hdvSub e he), inv.catIds, inv.idsNodup,
+        fun e he => inv.dvIds e (hdvSub e he), inv.dvFileIds, inv.catIds, inv.idsNodup,
         inv.namesNodup, inv.catTab, inv.tabIds, fun k hk => inv.rsTables k (hkeepSub k hk),
         fun e he => inv.dvTables e (hdvSub e he)⟩
       · rw [hD.2.1, inv.sync.rs]
@@ -504,7 +521,7 @@ theorem compactTable_inv (s : Store) (inv : Inv s) (tid : Nat) (d : TableDef) (s
       refine ⟨hwf, Sync.mk' c2 c1 (by rw [hD.1.2.2.2]; exact inv.sync.ok) (by rw [hD.1.1]; exact inv.sync.cat)
           (by rw [hD.1.2.1]; exact inv.sync.tables) ?_ ?_,
         ?_, fun e he => inv.dvFiles e (hdvSub e he), fun e he => List.mem_append_left _ (hdvLive e he),
-        fun e he => inv.dvIds e (hdvSub e he), inv.catIds, inv.idsNodup,
+        fun e he => inv.dvIds e (hdvSub e he), inv.dvFileIds, inv.catIds, inv.idsNodup,
         inv.namesNodup, inv.catTab, inv.tabIds, ?_, fun e he => inv.dvTables e (hdvSub e he)⟩
       · rw [hD.2.1, inv.sync.rs, setInsert, hfresh]
         simp only [Bool.false_eq_true, if_false, List.filter_append]
@@ -601,7 +618,7 @@ theorem createTable_inv (s : Store) (inv : Inv s) (d : TableDef) (id : Nat) (c' 
       by rw [f5, f3, f6]; exact inv.wf.pend⟩,
     Sync.mk' c2 c1 inv.sync.ok f1.symm f2.symm (by rw [f3]; exact inv.sync.rs) (by rw [f4]; exact inv.sync.dv),
     by rw [f3, f8]; exact inv.dirs, by rw [f4, f9]; exact inv.dvFiles, by rw [f4, f3]; exact inv.dvLive,
-    by rw [f4, f7]; exact inv.dvIds,
+    by rw [f4, f7]; exact inv.dvIds, by rw [f9, f7]; exact inv.dvFileIds,
     ?_, ?_, ?_, ?_, ?_, ?_, ?_⟩
   · rw [f1, a3]
     intro e he
@@ -739,7 +756,7 @@ theorem drop_inv (s : Store) (inv : Inv s) (n : String) (e0 : CatEntry) (h : s.c
     simp at h2
   refine ⟨⟨by rw [f8, f6]; exact inv.wf.dirs, ?_, ?_, ?_⟩,
     Sync.mk' c2 c1 (by rw [hD.1.2.2.2]; exact inv.sync.ok) (by rw [hD.1.1, f1]) (by rw [hD.1.2.1, f2]) ?_ ?_,
-    ?_, ?_, ?_, ?_, ?_, ?_, ?_, ?_, ?_, ?_, ?_⟩
+    ?_, ?_, ?_, ?_, ?_, ?_, ?_, ?_, ?_, ?_, ?_, ?_⟩
   · rw [f3, f6]; exact fun k hk => inv.wf.rs k (hkeep k hk).1
   · rw [f4, f6]; exact fun e he => inv.wf.dv e (hdvkeep e he).1
   · rw [f5, f3, f6]
@@ -776,6 +793,7 @@ theorem drop_inv (s : Store) (inv : Inv s) (n : String) (e0 : CatEntry) (h : s.c
     have hk := hdvkeep e he
     exact List.mem_filter.mpr ⟨inv.dvLive e hk.1, by simpa using hk.2⟩
   · rw [f4, f7]; exact fun e he => inv.dvIds e (hdvkeep e he).1
+  · rw [f9, f7]; exact inv.dvFileIds
   · rw [f1]; exact fun e he => inv.catIds e (List.mem_filter.mp he).1
   · rw [f1]; exact inv.idsNodup.sublist ((List.filter_sublist).map _)
   · rw [f1]; exact inv.namesNodup.sublist ((List.filter_sublist).map _)
@@ -839,7 +857,7 @@ theorem reopen_inv (s : Store) (inv : Inv s) :
       Sync.mk' (b := bootFold (rewriteOps (bootFold (replay s.manifest)))) (by show bootFold (replay _) = _; rw [hman]) hcl'
         hrw.2.2.2.1 hrw.1 (by rw [hrw.2.1]; exact inv.sync.tables) (by rw [hrw.2.2.2.2.1]; exact inv.sync.rs)
         (by rw [hrw.2.2.2.2.2]; exact inv.sync.dv),
-      ?_, inv.dvFiles, inv.dvLive, ?_, ?_, ?_, ?_, ?_, ?_, inv.rsTables, inv.dvTables⟩
+      ?_, ?_, inv.dvLive, ?_, ?_, ?_, ?_, ?_, ?_, ?_, inv.rsTables, inv.dvTables⟩
     · intro x hx
       have := (List.mem_filter.mp hx).2
       exact hfresh.1 x.1 (by rw [h.rs]; simpa using this)
@@ -851,7 +869,17 @@ theorem reopen_inv (s : Store) (inv : Inv s) :
       show (lookup k (s.dirs.filter fun x => s.rowsets.contains x.1)).isSome
       rw [hdirs k hk]; exact inv.dirs k hk
     · intro e he
+      obtain ⟨raw, h1, h2⟩ := inv.dvFiles e he
+      refine ⟨raw, ?_, h2⟩
+      show lookup e.key (s.dvFiles.filter fun x => (s.dvs.map DvE.key).contains x.1) = some raw
+      rw [lookup_filter (fun a => (s.dvs.map DvE.key).contains a) e.key (by simpa using List.mem_map_of_mem he)]
+      exact h1
+    · intro e he
       exact hfresh.2.1 e.key (by rw [h.dv]; exact List.mem_map_of_mem he)
+    · intro x hx
+      have hx' : x ∈ s.dvFiles.filter fun x => (s.dvs.map DvE.key).contains x.1 := hx
+      have := (List.mem_filter.mp hx').2
+      exact hfresh.2.1 x.1 (by rw [h.dv]; simpa using this)
     · show ∀ e ∈ (bootFold (replay s.manifest)).cat.entries, _
       rw [inv.sync.cat]; exact inv.catIds
     · show ((bootFold (replay s.manifest)).cat.entries.map _).Nodup
@@ -877,60 +905,23 @@ theorem reopen_inv (s : Store) (inv : Inv s) :
 
 /-! ### histories -/
 
-/-- DELETE: the delete-vector files it is about to create (`create_new`) do not exist yet.  DV files
-are never unlinked, so after a compaction removed all row-sets of a table and two reopens re-derived
-both id counters from what is live, a (table, row-set, DV) id triple can be handed out a second time -/
-def deleteGuard (s : Store) (n : String) (p : Row → Bool) : Prop :=
-  match s.tableId? n with
-  | some tid => ∀ e ∈ mkDvs tid (delHits s tid p) s.nextDv, lookup e.key s.dvFiles = none
-  | none => True
-
-/-- INSERT: no NULL goes into a NOT NULL column (C05) -/
-def insertGuard (s : Store) (n : String) (parts : List (List Row)) : Prop :=
-  match s.tableId? n with
-  | some tid => match lookup tid s.tables with
-    | some d => ∀ r ∈ parts.flatten, storeRow d.cols r = r
-    | none => True
-  | none => True
-
 /-- what a statement must satisfy, in the state it is issued in, for the history to stay inside
 what the code handles correctly (each clause is forced by a defect that the checks reproduce) -/
 def Guard (s : Store) : Op → Prop
   | .createView _ => False                       -- views / indexes take table ids that are not logged
   | .createIndex _ _ => False
-  | .delete n p => deleteGuard s n p
-  | .insert n parts => insertGuard s n parts
   | _ => True
-
-instance (s : Store) (n : String) (p : Row → Bool) : Decidable (deleteGuard s n p) := by
-  unfold deleteGuard
-  generalize s.tableId? n = o
-  cases o with
-  | none => exact isTrue trivial
-  | some tid => simp only; infer_instance
-
-instance (s : Store) (n : String) (parts : List (List Row)) : Decidable (insertGuard s n parts) := by
-  unfold insertGuard
-  generalize s.tableId? n = o
-  cases o with
-  | none => exact isTrue trivial
-  | some tid =>
-    simp only
-    generalize lookup tid s.tables = o2
-    cases o2 with
-    | none => exact isTrue trivial
-    | some d => simp only; infer_instance
 
 instance (s : Store) : (op : Op) → Decidable (Guard s op)
   | .create _ => isTrue trivial
   | .createView _ => isFalse id
   | .createIndex _ _ => isFalse id
-  | .delete n p => by show Decidable (deleteGuard s n p); infer_instance
+  | .delete _ _ => isTrue trivial
   | .compact _ => isTrue trivial
   | .vacuum => isTrue trivial
   | .reopen => isTrue trivial
   | .drop _ => isTrue trivial
-  | .insert n parts => by show Decidable (insertGuard s n parts); infer_instance
+  | .insert _ _ => isTrue trivial
 
 def GoodHist : Store → List Op → Prop
   | _, [] => True
@@ -966,13 +957,14 @@ theorem step_inv (s : Store) (inv : Inv s) (op : Op) (g : Guard s op) :
     | some tid =>
       cases h2 : lookup tid s.tables with
       | none => exact ⟨s, by simp [stepUp, Store.insert, h1, h2], inv⟩
-      | some d => exact ⟨_, rfl, insert_inv s inv n parts tid d h1 h2⟩
+      | some d =>
+        cases hok : rowsOk d parts.flatten with
+        | false => exact ⟨s, by simp [stepUp, insert_rejected s n parts tid d h1 h2 hok], inv⟩
+        | true => exact ⟨_, rfl, insert_inv s inv n parts tid d h1 h2 hok⟩
   | delete n p =>
     cases h1 : s.tableId? n with
     | none => exact ⟨s, by simp [stepUp, Store.delete, h1], inv⟩
-    | some tid =>
-      simp only [Guard, deleteGuard, h1] at g
-      exact ⟨_, rfl, delete_inv s inv n p tid h1 g⟩
+    | some tid => exact ⟨_, rfl, delete_inv s inv n p tid h1⟩
   | compact plan => exact ⟨_, rfl, compact_inv plan s inv⟩
   | vacuum => exact ⟨_, rfl, vacuum_inv s inv⟩
   | reopen =>
